@@ -231,17 +231,246 @@ Inductive case :=
 | CMatch (r : re) (s : str) (obs_full obs_search : bool)      (* regexp: ^(?:r)$ and r against s *)
 | CExcl (raw : list rawpat) (s : str) (obs : bool).           (* IsPathExcludedFromPatterns(s, '/', raw...) *)
 
-Definition check_case (c : case) : bool :=
+(* ====================================================================================================
+   The model PARAMETERISED by facts read from the source.
+   translator-c08/cmd/excl2coq parses exclusion.go, files.go and zip.go of the repository on every run and writes
+   coq/C08/Gen.v : a value [gen : facts].  Every function below interprets a facts record; with the expected facts
+   it coincides with the definitions above (ProofsGen.v), and the property theorems (Props.v) are stated for the
+   model instantiated with [gen], each one requiring only the facts of its own operation.
+   ==================================================================================================== *)
+Inductive form := FPlain | FSlash | FSepNum.          (* pattern | ".*/%v/.*" | ".*%v%v%v.*" with the separator rune *)
+Inductive tested := TName | TPath | TNone.            (* an exclusion test is applied to: the entry name | the joined path | nothing *)
+
+Record facts := mkFacts {
+  (* exclusion.go *)
+  x_skip_blank : bool;          (* NewExclusionRegexList: a blank pattern is skipped, the loop goes on *)
+  x_forms : list form;          (* the texts appended per pattern, in order; each is compiled on its own *)
+  x_invalid_kind : bool;        (* a compile error is wrapped as commonerrors.ErrInvalid *)
+  x_keep_unmatched : bool;      (* ExcludeFiles keeps f iff !IsPathExcluded(f, regexes...) *)
+  (* x_own fields: the operation assigns to / appends to the patterns it was given (expected: false) *)
+  walk_own : bool;
+  walk_root : bool;             (* IsPathExcluded(root, regexes...) => return, before anything else *)
+  walk_child : bool;            (* the loop of walk ranges over ExcludeFiles(fs.Ls(path), exclusions) *)
+  walk_down : bool;             (* the recursive call receives the same compiled list *)
+  ls_own : bool;
+  ls_filter : bool;             (* LsWithExclusionPatterns returns ExcludeFiles(all names, regexes) *)
+  lsrec_own : bool;
+  lsrec_with_pats : bool;       (* LsRecursive... hands its patterns to WalkWithContextAndExclusionPatterns *)
+  tree_own : bool;
+  tree_filtered : bool;         (* ListDirTree... lists with LsWithExclusionPatterns(fs, dirPath, regexes) *)
+  tree_down : bool;             (* and recurses with the same regexes *)
+  sub_own : bool;
+  sub_tested : tested;          (* what SubDirectories... hands to IsPathExcluded *)
+  sub_requires_dir : bool;      (* file.IsDir() && ... *)
+  copy_own : bool;
+  copy_top_test : bool * bool;     (* CopyBetweenFSWithExclusionRegexes: first statement tests (src path, dest path) *)
+  copy_folder_test : bool * bool;  (* copyFolderBetweenFSWithExclusionRegexes *)
+  copy_file_test : bool * bool;    (* copyFileBetweenFS... *)
+  copy_filtered : bool;         (* the folder copy lists with LsWithExclusionPatterns(srcFs, src, source regexes) *)
+  copy_down : bool;             (* and recurses with both regex lists *)
+  zip_own : bool;
+  zip_validates_first : bool;   (* NewExclusionRegexList + return on error precede fs.CreateFile(destination) *)
+  zip_with_pats : bool;         (* the walk receives the patterns *)
+  rm_own : bool;
+  rm_validates_first : bool;    (* validation precedes every backend call of removeWithExclusionPatterns *)
+  rm_cleans_with_pats : bool;   (* a non-empty directory is cleaned with the patterns *)
+  rm_stops_if_nonempty : bool;  (* if something is left the removal stops *)
+  rm_final_on_tested : bool;    (* the last test before vfs.Remove(dir) is on [tested] (false: on dir) *)
+  rm_nested_name : bool;        (* removeFileWithContext hands the entry NAME down as [tested] (false: the joined path) *)
+  rm_nested_down : bool;        (* ... together with the patterns *)
+  clean_own : bool;
+  clean_validates_first : bool;
+  clean_filtered : bool;        (* CleanDir lists with fs.LsWithExclusionPatterns(dir, patterns...) *)
+  clean_down : bool             (* and hands the patterns to removeFileWithContext *)
+}.
+
+Section Generic.
+Variable F : facts.
+
+Definition form_re (f : form) (p : re) : re :=
+  match f with FPlain => p | FSlash => wrap pre2 post2 p | FSepNum => wrap pre3 post3 p end.
+Definition gexpand (pats : list re) : list re := flat_map (fun p => map (fun f => form_re f p) (x_forms F)) pats.
+Fixpoint gcompile (raw : list rawpat) : option (list re) :=
+  match raw with
+  | [] => Some []
+  | Bad :: _ => None
+  | Blank :: rest => if x_skip_blank F then gcompile rest else option_map (cons Eps) (gcompile rest)
+  | Good r :: rest => option_map (cons r) (gcompile rest)
+  end.
+
+(* ExcludeFiles: is the name kept? *)
+Definition kept (E : list re) (x : str) : bool := if x_keep_unmatched F then negb (excl E x) else excl E x.
+(* LsWithExclusionPatterns(fs, dir, regexes): is the name dropped from the listing? *)
+Definition lsdrop (E : list re) (x : str) : bool := ls_filter F && negb (kept E x).
+Definition down (b : bool) (E : list re) : list re := if b then E else [].
+
+Fixpoint gwalk_node (E : list re) (n : node) : list entry :=
+  ([], is_dir n) ::
+  match n with
+  | File => []
+  | Dir ch => flat_map (fun nc => if walk_child F && negb (kept E (fst nc)) then []
+                                  else under (fst nc) (gwalk_node (down (walk_down F) E) (snd nc))) ch
+  end.
+Definition gwalk (E : list re) (root : str) (t : node) : list entry :=
+  if walk_root F && excl E root then [] else gwalk_node E t.
+Definition gls_rec (E : list re) (root : str) (incl_dirs : bool) (t : node) : list entry :=
+  filter (fun e => incl_dirs || negb (snd e)) (gwalk (down (lsrec_with_pats F) E) root t).
+Definition gzip_entries (E : list re) (root : str) (t : node) : list entry :=
+  filter (fun e => match fst e with [] => false | _ => true end) (gwalk (down (zip_with_pats F) E) root t).
+Definition gls (E : list re) (t : node) : list entry :=
+  match t with
+  | File => []
+  | Dir ch => flat_map (fun nc => if lsdrop E (fst nc) then [] else [([fst nc], is_dir (snd nc))]) ch
+  end.
+Definition sub_excl (E : list re) (root x : str) : bool :=
+  match sub_tested F with TName => excl E x | TPath => excl E (pjoin sep root x) | TNone => false end.
+Definition gsubdirs (E : list re) (root : str) (t : node) : list entry :=
+  match t with
+  | File => []
+  | Dir ch => flat_map (fun nc => if (negb (sub_requires_dir F) || is_dir (snd nc)) && negb (sub_excl E root (fst nc))
+                                  then [([fst nc], is_dir (snd nc))] else []) ch
+  end.
+Fixpoint glist_tree (E : list re) (n : node) : list entry :=
+  match n with
+  | File => []
+  | Dir ch => flat_map (fun nc => if tree_filtered F && lsdrop E (fst nc) then []
+                                  else ([fst nc], is_dir (snd nc)) :: under (fst nc) (glist_tree (down (tree_down F) E) (snd nc))) ch
+  end.
+
+Definition ctest (pr : bool * bool) (E : list re) (sp dp : str) : bool := (fst pr && excl E sp) || (snd pr && excl E dp).
+Fixpoint gcopy_node (E : list re) (sp dp : str) (n : node) : list entry :=
+  match n with
+  | File => if ctest (copy_file_test F) E sp dp then [] else [([], false)]
+  | Dir ch =>
+      if ctest (copy_folder_test F) E sp dp then [] else
+      ([], true) ::
+      flat_map (fun nc =>
+        if copy_filtered F && lsdrop E (fst nc) then [] else
+        if ctest (copy_top_test F) (down (copy_down F) E) (pjoin sep sp (fst nc)) dp then [] else
+        under (fst nc) (gcopy_node (down (copy_down F) E) (pjoin sep sp (fst nc)) (pjoin sep dp (fst nc)) (snd nc))) ch
+  end.
+Definition gcopy_top (E : list re) (src dest base : str) (dest_exists : bool) (t : node) : list entry :=
+  if ctest (copy_top_test F) E src dest then [] else
+  if dest_exists then under base (gcopy_node E src (pjoin sep dest base) t)
+  else gcopy_node E src dest t.
+
+(* removeWithExclusionPatterns(dir = p, tested); a non-empty directory removed without stopping is modelled as gone *)
+Fixpoint gremove_node (E : list re) (tst p : str) (n : node) : option node :=
+  let final := if rm_final_on_tested F then tst else p in
+  match n with
+  | File => if excl E final then Some File else None
+  | Dir ch =>
+      let Ec := down (rm_cleans_with_pats F) E in
+      let ch' := flat_map (fun nc =>
+                   if clean_filtered F && lsdrop Ec (fst nc) then [nc] else
+                   match gremove_node (down (clean_down F && rm_nested_down F) Ec)
+                                      (if rm_nested_name F then fst nc else pjoin sep p (fst nc))
+                                      (pjoin sep p (fst nc)) (snd nc) with
+                   | Some c' => [(fst nc, c')]
+                   | None => []
+                   end) ch in
+      match ch' with
+      | [] => if excl E final then Some (Dir []) else None
+      | _ => if rm_stops_if_nonempty F || excl E final then Some (Dir ch') else None
+      end
+  end.
+Definition gclean_dir (E : list re) (p : str) (t : node) : node :=
+  match t with
+  | File => File
+  | Dir ch =>
+      Dir (flat_map (fun nc =>
+             if clean_filtered F && lsdrop E (fst nc) then [nc] else
+             match gremove_node (down (clean_down F && rm_nested_down F) E)
+                                (if rm_nested_name F then fst nc else pjoin sep p (fst nc))
+                                (pjoin sep p (fst nc)) (snd nc) with
+             | Some c' => [(fst nc, c')]
+             | None => []
+             end) ch)
+  end.
+
+Definition op_own (op : opk) : bool :=
+  match op with
+  | OWalk => walk_own F
+  | OLs => ls_own F
+  | OLsRec _ => lsrec_own F || walk_own F
+  | OListTree => tree_own F
+  | OSubDirs => sub_own F
+  | OCopy _ => copy_own F
+  | OZip => zip_own F || walk_own F
+  | ORemove | OClean => rm_own F || clean_own F
+  end.
+Definition op_validates_first (op : opk) : bool :=
+  match op with
+  | OZip => zip_validates_first F
+  | ORemove => rm_validates_first F
+  | OClean => clean_validates_first F
+  | _ => true      (* the other operations compile the patterns in their first statements (translator: fixed shape) *)
+  end.
+
+Inductive gresult :=
+| GInvalid                     (* ErrInvalid, nothing touched *)
+| GInvalidLate                 (* an invalid pattern is noticed too late, or reported with another kind *)
+| GUnmodelled                  (* the operation builds patterns of its own: outside the model *)
+| GOut (out : list entry).
+
+Definition grun_op (op : opk) (raw : list rawpat) (root dest base : str) (t : node) : gresult :=
+  if op_own op then GUnmodelled else
+  match gcompile raw with
+  | None => if x_invalid_kind F && op_validates_first op then GInvalid else GInvalidLate
+  | Some pats =>
+      let E := gexpand pats in
+      GOut match op with
+           | OWalk => gwalk E root t
+           | OLs => gls E t
+           | OLsRec d => gls_rec E root d t
+           | OListTree => glist_tree E t
+           | OSubDirs => gsubdirs E root t
+           | OCopy de => gcopy_top E root dest base de t
+           | OZip => gzip_entries E root t
+           | ORemove => survivors (gremove_node E root root t)
+           | OClean => all_entries (gclean_dir E root t)
+           end
+  end.
+End Generic.
+
+(* evaluated by the correspondence on the GENERATED facts (Gen.v: check_case_gen := gcheck_case gen) *)
+Definition gcheck_case (F : facts) (c : case) : bool :=
   match c with
   | COp op raw root dest base t obs_invalid obs =>
-      match run_op op raw root dest base t with
-      | RInvalid => obs_invalid
-      | ROut out => negb obs_invalid && same_entries (project op out) obs
+      match grun_op F op raw root dest base t with
+      | GInvalid => obs_invalid
+      | GInvalidLate => negb obs_invalid
+      | GUnmodelled => false
+      | GOut out => negb obs_invalid && same_entries (project op out) obs
       end
   | CMatch r s f g => Bool.eqb (matchb r s) f && Bool.eqb (findb r s) g
   | CExcl raw s o =>
-      match compile raw with
+      match gcompile F raw with
       | None => negb o                     (* IsPathExcludedFromPatterns: a compile error means "not excluded" *)
-      | Some pats => Bool.eqb (excl (expand pats) s) o
+      | Some pats => Bool.eqb (excl (gexpand F pats) s) o
       end
   end.
+
+(* the facts the hand-written definitions above correspond to *)
+Definition expected_facts : facts := {|
+  x_skip_blank := true; x_forms := [FPlain; FSlash; FSepNum]; x_invalid_kind := true; x_keep_unmatched := true;
+  walk_own := false; walk_root := true; walk_child := true; walk_down := true;
+  ls_own := false; ls_filter := true;
+  lsrec_own := false; lsrec_with_pats := true;
+  tree_own := false; tree_filtered := true; tree_down := true;
+  sub_own := false; sub_tested := TName; sub_requires_dir := true;
+  copy_own := false; copy_top_test := (true, true); copy_folder_test := (true, true); copy_file_test := (true, true);
+  copy_filtered := true; copy_down := true;
+  zip_own := false; zip_validates_first := true; zip_with_pats := true;
+  rm_own := false; rm_validates_first := true; rm_cleans_with_pats := true; rm_stops_if_nonempty := true;
+  rm_final_on_tested := true; rm_nested_name := true; rm_nested_down := true;
+  clean_own := false; clean_validates_first := true; clean_filtered := true; clean_down := true |}.
+
+(* the facts of the code BEFORE the two repairs (bc1ce85a): CleanDir did not hand the patterns to the per-entry removal,
+   and Remove / CleanDir / Zip did not validate the patterns first *)
+Definition facts_before_fix : facts := {| x_skip_blank := x_skip_blank expected_facts; x_forms := x_forms expected_facts; x_invalid_kind := x_invalid_kind expected_facts; x_keep_unmatched := x_keep_unmatched expected_facts; walk_own := walk_own expected_facts; walk_root := walk_root expected_facts; walk_child := walk_child expected_facts; walk_down := walk_down expected_facts; ls_own := ls_own expected_facts; ls_filter := ls_filter expected_facts; lsrec_own := lsrec_own expected_facts; lsrec_with_pats := lsrec_with_pats expected_facts; tree_own := tree_own expected_facts; tree_filtered := tree_filtered expected_facts; tree_down := tree_down expected_facts; sub_own := sub_own expected_facts; sub_tested := sub_tested expected_facts; sub_requires_dir := sub_requires_dir expected_facts; copy_own := copy_own expected_facts; copy_top_test := copy_top_test expected_facts; copy_folder_test := copy_folder_test expected_facts; copy_file_test := copy_file_test expected_facts; copy_filtered := copy_filtered expected_facts; copy_down := copy_down expected_facts; zip_own := zip_own expected_facts; zip_validates_first := false; zip_with_pats := zip_with_pats expected_facts; rm_own := rm_own expected_facts; rm_validates_first := false; rm_cleans_with_pats := rm_cleans_with_pats expected_facts; rm_stops_if_nonempty := rm_stops_if_nonempty expected_facts; rm_final_on_tested := rm_final_on_tested expected_facts; rm_nested_name := rm_nested_name expected_facts; rm_nested_down := rm_nested_down expected_facts; clean_own := clean_own expected_facts; clean_validates_first := false; clean_filtered := clean_filtered expected_facts; clean_down := false |}.
+
+(* written to Gen.v when the translator cannot read the source (unknown statement shape): every operation is outside
+   the model, nothing can be proved of it *)
+Definition facts_unreadable : facts := {| x_skip_blank := false; x_forms := []; x_invalid_kind := false; x_keep_unmatched := false; walk_own := true; walk_root := false; walk_child := false; walk_down := false; ls_own := true; ls_filter := false; lsrec_own := true; lsrec_with_pats := false; tree_own := true; tree_filtered := false; tree_down := false; sub_own := true; sub_tested := TNone; sub_requires_dir := false; copy_own := true; copy_top_test := (false, false); copy_folder_test := (false, false); copy_file_test := (false, false); copy_filtered := false; copy_down := false; zip_own := true; zip_validates_first := false; zip_with_pats := false; rm_own := true; rm_validates_first := false; rm_cleans_with_pats := false; rm_stops_if_nonempty := false; rm_final_on_tested := false; rm_nested_name := false; rm_nested_down := false; clean_own := true; clean_validates_first := false; clean_filtered := false; clean_down := false |}.
+Definition check_case (c : case) : bool := gcheck_case expected_facts c.
